@@ -464,11 +464,18 @@ class Extractor:
     def _expr_guards(self, root: ast.AST, node: Node, nz: Normalizer) -> t.List[t.Tuple[str, bool]]:
         out: t.List[t.Tuple[str, bool]] = []
         for sub, bound in walk_with_bindings(root, nz, node):
-            hr = nz.helper_return(sub) if isinstance(sub, ast.Call) else None
+            hr = nz.helper_return(sub, node, bound) if isinstance(sub, ast.Call) else None
             if hr is not None:
                 sub_nz, rv, rn = hr
                 out += self._expr_guards(rv, rn, sub_nz)
                 continue
+            if isinstance(sub, ast.Name) and isinstance(sub.ctx, ast.Load) and sub.id not in bound and nz.rd.is_local(sub.id):
+                # a local bound once to a (filtered) iterable: its filters apply to whoever iterates it
+                defs_ = nz.rd.at(node, sub.id)
+                if len(defs_) == 1 and defs_[0].kind == 'assign' and defs_[0].value is not None and not defs_[0].path \
+                        and isinstance(defs_[0].value, (ast.Call, ast.GeneratorExp)) and defs_[0].node is not node:
+                    out += self._expr_guards(defs_[0].value, defs_[0].node, nz)
+                    continue
             if isinstance(sub, ast.Call) and isinstance(sub.func, ast.Name) and sub.func.id == 'filter' and len(sub.args) == 2 \
                     and isinstance(sub.args[0], ast.Lambda) and sub.args[0].args.args:
                 lam = sub.args[0]
